@@ -1173,6 +1173,28 @@ fn history<T: Num>(ctx: &mut Ctx, rng: &mut Rng, cfg: Cfg, pool_size: usize, ste
             live.extend(consts.iter().cloned());
             w.audit_and_gc(ctx, &live, "mid-history");
         }
+        if step % 64 == 31 && n >= 2 {
+            // reordering with live (and dead) nodes: every handle keeps its value table, the diagram
+            // is the reduced one for the NEW order (exact node and terminal counts after gc)
+            let mut req = rng.perm(n as usize);
+            if rng.chance(1, 3) {
+                req.truncate(rng.range(2, n as usize));
+            }
+            let seq = rng.chance(1, 3);
+            w.mref.with_manager_exclusive(|m| if seq { oxidd_reorder::set_var_order_seq(m, &req) } else { oxidd_reorder::set_var_order(m, &req) });
+            let after = crate::kinds::current_order(&w.mref);
+            ctx.eval();
+            if !crate::mon::c08::consistent(&after, &req) {
+                let k = w.k();
+                w.viol(ctx, format!("{k}:set_var_order:requested-relative-order"), || format!("request {req:?} after {after:?}"));
+            }
+            w.cfg.order = after;
+            w.replay = None; // the replay manager is built for one order
+            let mut live = pool.clone();
+            live.extend(consts.iter().cloned());
+            w.audit_and_gc(ctx, &live, "after set_var_order");
+            ctx.count("reorderings_with_live_nodes", 1);
+        }
         let i = rng.usize(pool.len());
         let j = rng.usize(pool.len());
         let (f, tf) = pool[i].clone();
